@@ -52,6 +52,22 @@ namespace sim
 		do {
 
 			m_service.restart();
+#ifdef LIBSIMULATOR_VERIF
+			if (verif_step_hook)
+			{
+				// the hook may post new work after the queue drained (which
+				// leaves the io_context in its stopped state), hence the
+				// restart() before every poll_one()
+				last_executed = 0;
+				while (m_service.poll_one())
+				{
+					++last_executed;
+					verif_step_hook();
+					m_service.restart();
+				}
+			}
+			else
+#endif
 			last_executed = m_service.poll();
 			ret += last_executed;
 
